@@ -19,6 +19,7 @@ res = []
 try:
     for d in sorted(glob.glob(os.path.join(VERIF, "seeded", "*"))):
         mid = os.path.basename(d)
+        if not os.path.isdir(d): continue
         if want and not any(mid.startswith(w) for w in want): continue
         meta = json.load(open(os.path.join(d, "meta.json")))
         if meta.get("tier_needed") == "thorough" and "--thorough" not in sys.argv:
